@@ -215,8 +215,14 @@ def main():
     n0 = sum(1 for p in t0.printed if "reject" in p)
     n1 = sum(1 for p in t.printed if "reject" in p)
     if want < 2 or n1 - n0 < 2:
-        ck.machinery_failure("corrupted trace was not rejected (%d -> %d rejects, %d corruptions)" % (n0, n1, want))
-    ck.note("corrupted_traces_rejected", n1 - n0)
+        if not ck.violations:
+            ck.machinery_failure("corrupted trace was not rejected (%d -> %d rejects, %d corruptions)" % (n0, n1, want))
+        # with real rejects already present in that trace a corrupted line may be shadowed by the first failing clause:
+        # the property verdict (exit 1) stands, the demonstration is reported as not evaluated
+        ck.note("corrupted_traces_rejected", max(0, n1 - n0))
+        ck.note("corrupted_trace_demo", "not evaluated: the recorded trace itself is rejected")
+    else:
+        ck.note("corrupted_traces_rejected", n1 - n0)
 
     shutil.rmtree(data_wd, ignore_errors=True)
     ck.exhaustive = True
